@@ -1,4 +1,4 @@
-//@@ unit c14_checkpoint properties=C14,C13 bounded=checkpoint.rewind_restores_exactly_the_checkpointed_files_failed_rewind_leaves_workspace_unchanged_refusal_leaves_no_trace
+//@@ unit c14_checkpoint properties=C14,C13,C12 bounded=checkpoint.rewind_restores_exactly_the_checkpointed_files_failed_rewind_leaves_workspace_unchanged_refusal_leaves_no_trace
 #![allow(unused_imports, dead_code, unused_variables, unused_mut)]
 use vstd::prelude::*;
 use vstd::std_specs::iter::IteratorSpec;
